@@ -118,9 +118,9 @@ def to_events(trace_path, out_path):
     return events, meta
 
 
-def run_histories(wd, seed, nhist, nops, mix, tag):
+def run_histories(wd, seed, nhist, nops, mix, tag, extra_cases=()):
     rng = random.Random(seed * 104729 + 7)
-    cases = [gen_history(rng, nops, mix) for _ in range(nhist)]
+    cases = [gen_history(rng, nops, mix) for _ in range(nhist)] + list(extra_cases)
     cp, tp, ep = (os.path.join(wd, f"{tag}-{x}.ndjson") for x in ("cases", "trace", "tlc"))
     vlib.write_ndjson(cp, cases)
     vlib.kverif(["sparql", "--cases", cp, "--out", tp])
